@@ -5,3 +5,6 @@ pub open spec fn spec_tip(network: NetID, height: BlockHeight, activation: u64) 
     else if network == NetID::Testnet { height.0 >= 500 } else { true }
 }
 pub open spec fn spec_tip906<C: ContentAddrStore>(s: UnsealedState<C>) -> bool { spec_tip(s.network, s.height, 830000) }
+
+/// state invariant: the transaction set is keyed by the transactions' own hashes
+pub open spec fn txs_keyed(m: Map<TxHash, Transaction>) -> bool { forall|h: TxHash| m.contains_key(h) ==> spec_txhash(#[trigger] m[h]) == h }
